@@ -217,6 +217,8 @@ def _child(script, argv, env, cwd, stdin_fd, out_fd, err_fd, logfd, world,
             _c.SINK.reset()
             _c.bind(contracts, sh)
         import runpy
+        if plan and plan.get('umask') is not None:
+            os.umask(int(plan['umask']))
         if plan and plan.get('recursion_limit'):
             # scaled-down stand-in for "deeper than the interpreter's
             # recursion limit" (trees of ~1000 levels cost O(depth^2) path walks)
@@ -289,6 +291,9 @@ def run_cmd(world, cmd, args, stdin=b'', plan=None, cwd=None, env=None,
             and not plan.get('partition_order'):
         plan['partition_order'] = [world.abs(m) for m in
                                    world.desc['partition_order_rel']]
+    if getattr(world, 'desc', None) and world.desc.get('umask') is not None \
+            and plan.get('umask') is None:
+        plan['umask'] = world.desc['umask']
     if getattr(world, 'desc', None) and world.desc.get('listdir_seed') is not None \
             and plan.get('listdir_seed') is None:
         plan['listdir_seed'] = world.desc['listdir_seed']   # readdir order of this world
@@ -459,6 +464,9 @@ def run_cold(world, cmd, args, stdin=b'', plan=None, cwd=None, env=None,
             and not plan.get('partition_order'):
         plan['partition_order'] = [world.abs(m) for m in
                                    world.desc['partition_order_rel']]
+    if getattr(world, 'desc', None) and world.desc.get('umask') is not None \
+            and plan.get('umask') is None:
+        plan['umask'] = world.desc['umask']
     if getattr(world, 'desc', None) and world.desc.get('listdir_seed') is not None \
             and plan.get('listdir_seed') is None:
         plan['listdir_seed'] = world.desc['listdir_seed']   # readdir order of this world
